@@ -4,9 +4,11 @@ import (
 	"crypto"
 	"crypto/ecdsa"
 	"crypto/sha256"
+	"encoding/asn1"
 	"errors"
 	"fmt"
 	"io"
+	"math/big"
 	"strings"
 	"testing"
 
@@ -89,6 +91,40 @@ func checkC20(c c20Case) error {
 			cs := &cose.Countersignature{Headers: c20Headers()}
 			err = cs.Sign(rnd, s, parent, nil)
 			slot, enc = &cs.Signature, cs.MarshalCBOR
+		case "Countersignature.Sign/decoded", "Signature.Sign/decoded", "Sign1Message.Sign/decoded", "UntaggedSign1Message.Sign/decoded":
+			// a decoded object (raw header bytes retained) whose signature was cleared so that it can be issued again
+			layer := []byte{0x83, 0x43, 0xa1, 0x01, 0x27, 0xa1, 0x04, 0x41, 0x31, 0x43, 1, 2, 3}
+			msg1 := []byte{0xd2, 0x84, 0x43, 0xa1, 0x01, 0x27, 0xa1, 0x04, 0x41, 0x31, 0x47, 'p', 'a', 'y', 'l', 'o', 'a', 'd', 0x43, 1, 2, 3}
+			var derr error
+			switch c.Entry {
+			case "Countersignature.Sign/decoded":
+				cs := &cose.Countersignature{}
+				derr = cs.UnmarshalCBOR(layer)
+				cs.Signature = nil
+				err = cs.Sign(rnd, s, parent, nil)
+				slot, enc = &cs.Signature, cs.MarshalCBOR
+			case "Signature.Sign/decoded":
+				sg := &cose.Signature{}
+				derr = sg.UnmarshalCBOR(layer)
+				sg.Signature = nil
+				err = sg.Sign(rnd, s, []byte{0x40}, payload, nil)
+				slot, enc = &sg.Signature, sg.MarshalCBOR
+			case "Sign1Message.Sign/decoded":
+				msg := &cose.Sign1Message{}
+				derr = msg.UnmarshalCBOR(msg1)
+				msg.Signature = nil
+				err = msg.Sign(rnd, nil, s)
+				slot, enc = &msg.Signature, msg.MarshalCBOR
+			default:
+				msg := &cose.UntaggedSign1Message{}
+				derr = msg.UnmarshalCBOR(msg1[1:])
+				msg.Signature = nil
+				err = msg.Sign(rnd, nil, s)
+				slot, enc = &msg.Signature, msg.MarshalCBOR
+			}
+			if derr != nil {
+				return fmt.Errorf("harness: %v", derr)
+			}
 		default:
 			return fmt.Errorf("harness: unknown entry %q", c.Entry)
 		}
@@ -250,7 +286,8 @@ func TestC20_SignerFaults(t *testing.T) {
 			stats.Sample("signer-fault-vector", map[string]any{"entry": c.Entry, "modes": modeNames(c.Modes)})
 		}
 	}
-	for _, e := range []string{"Sign1", "Sign1Untagged", "SignHashEnvelope", "Countersign0", "Sign1Message.Sign", "UntaggedSign1Message.Sign", "Signature.Sign", "Countersignature.Sign"} {
+	for _, e := range []string{"Sign1", "Sign1Untagged", "SignHashEnvelope", "Countersign0", "Sign1Message.Sign", "UntaggedSign1Message.Sign", "Signature.Sign", "Countersignature.Sign",
+		"Countersignature.Sign/decoded", "Signature.Sign/decoded", "Sign1Message.Sign/decoded", "UntaggedSign1Message.Sign/decoded"} {
 		for m := 0; m < 5; m++ {
 			run(c20Case{Entry: e, Modes: []int{m}})
 		}
@@ -518,6 +555,11 @@ func checkC20EntropyInner(c c20EntropyCase) error {
 			switch mode {
 			case "stub-panics":
 				panic("c20: key backend gone")
+			case "stub-oversized-der":
+				// well-formed ASN.1 whose r does not fit the curve: the conversion fails half-way
+				wide := new(big.Int).Lsh(big.NewInt(1), 8*70)
+				der, _ := asn1.Marshal(struct{ R, S *big.Int }{wide, big.NewInt(5)})
+				return der, nil
 			case "stub-fails-once":
 				// a transient fault: only the first operation of the key fails
 				if ncalls == 1 {
@@ -547,6 +589,29 @@ func checkC20EntropyInner(c c20EntropyCase) error {
 	desc := fmt.Sprintf("%s/%s/%s/limit=%d/short=%v/eof=%v", c.Entry, refcose.AlgName(c.Key.Alg), c.Signer, c.Limit, c.Short, c.EOF)
 	outcome := "error"
 	switch c.Entry {
+	case "Signer.Sign":
+		// the signer object itself: an error comes without bytes
+		out, err := sg.Sign(rd, payload)
+		if err != nil {
+			if len(out) != 0 {
+				return finding("bytes-with-error", "%s: Signer.Sign returned %d bytes together with %v", desc, len(out), err)
+			}
+			break
+		}
+		if len(out) == 0 && c.Signer != "stub-empty" {
+			return finding("signer-error-lost", "%s: Signer.Sign returned no bytes and no error", desc)
+		}
+		if real {
+			if err := ver.Verify(payload, out); err != nil {
+				return finding("unusable-signature", "%s: %v", desc, err)
+			}
+			if mustFail {
+				return finding("entropy-failure-swallowed", "%s: signing succeeded although the entropy source failed before delivering a single byte", desc)
+			}
+		} else if c.Signer != "stub-empty" {
+			return finding("signer-error-lost", "%s: Signer.Sign succeeded although the key failed", desc)
+		}
+		outcome = "success"
 	case "Sign1":
 		out, err := cose.Sign1(rd, sg, hdr, payload, nil)
 		if err != nil {
@@ -682,7 +747,7 @@ func TestC20_Entropy(t *testing.T) {
 		limits = append(limits, k)
 	}
 	for _, km := range c20EntropyKeys() {
-		for _, entry := range []string{"Sign1", "SignMessage2", "Countersign0"} {
+		for _, entry := range []string{"Sign1", "SignMessage2", "Countersign0", "Signer.Sign"} {
 			for _, short := range []bool{false, true} {
 				for _, k := range limits {
 					n++
@@ -697,7 +762,10 @@ func TestC20_Entropy(t *testing.T) {
 					}
 				}
 			}
-			for _, sgn := range []string{"stub-error", "stub-partial", "stub-empty", "stub-fails-once", "stub-panics", "opaque-trailing-der", "cose-key-inconsistent-pair"} {
+			for _, sgn := range []string{"stub-error", "stub-partial", "stub-empty", "stub-fails-once", "stub-panics", "stub-oversized-der", "opaque-trailing-der", "cose-key-inconsistent-pair"} {
+				if km.Family() != "ec" && sgn == "stub-oversized-der" {
+					continue
+				}
 				if km.Family() != "ec" && (sgn == "opaque-trailing-der" || sgn == "cose-key-inconsistent-pair") {
 					continue
 				}
